@@ -1058,6 +1058,9 @@ class Evaluator(object):
             self.emit('try', t, node, guards, fn, chain)
             self.try_ifs.add(node['sp'])
             return replace(sbt, payload, t)
+        if sbt == payload and nbt is not None and nbt[0] in ('lit', 'path') and not nevs and is_default_match(node):
+            # match opt { Some(v) => v, None => d }   ==   opt.unwrap_or(d)
+            return ('call', 'std::option::Option::unwrap_or', (sc, nbt), ())
         if nbt is None or nbt[0] != 'call' or nbt[1] != 'Err' or len(nbt[2]) != 1:
             return None
         if not error_building_only([x for x in nevs if x.kind != 'ret'], nbt) or [x for x in nevs if x.kind == 'ret']:
@@ -1405,8 +1408,8 @@ def _hands_error_on(body, pat):
         return False
     binds = [x['id'] for x in H.pat_bindings(pat)]
     if not binds:
-        # `Err(_) => Err(<constant error>)`
-        return not any(n.get('k') in ('Call', 'MethodCall') and not (n.get('k') == 'Call' and n['f'].get('dk', '').startswith('Ctor')) for n in H.walk(b['args'][0]))
+        # `Err(_) => Err(<constant error>)` (an error built from values at hand: clones and conversions are not effects)
+        return H.pure_expr(b['args'][0])
     if len(binds) != 1:
         return False
     return any(n.get('k') == 'Local' and n['id'] == binds[0] for n in H.walk(b['args'][0]))
@@ -1452,6 +1455,26 @@ def is_propagate_match(node):
         if ob2.get('ty') == '!' or (ob2.get('k') == 'MacroCall' and ob2.get('name') in ('unreachable', 'panic', 'unimplemented', 'todo')):
             return False
     return _hands_error_on(ea['body'], ea['pat'])
+
+
+def is_default_match(node):
+    """Static shape of `match opt { Some(v) => v, None => <constant> }`: the explicit spelling of `opt.unwrap_or(<constant>)`."""
+    import canon
+    if node.get('k') != 'Match' or node.get('src') != 'Normal' or len(node.get('arms', [])) != 2:
+        return False
+    ty = node['scrut'].get('ty') or ''
+    if not ty.lstrip('&').startswith('std::option::Option<'):
+        return False
+    ws = [canon.whole(a['pat'], ty) if a.get('guard') is None else None for a in node['arms']]
+    if {'Some'} not in ws or {'None'} not in ws:
+        return False
+    sa, na = node['arms'][ws.index({'Some'})], node['arms'][ws.index({'None'})]
+    sb = H.peel(sa['body'])
+    binds = H.pat_bindings(sa['pat'])
+    if not (sb.get('k') == 'Local' and len(binds) == 1 and sb['id'] == binds[0]['id']):
+        return False
+    nb = H.peel(na['body'])
+    return nb.get('k') in ('Lit', 'Def') or bool(H.num_limit(nb))
 
 
 def is_propagate_iflet(node):
